@@ -196,7 +196,10 @@ func (e *Entry) Modules() *Modules {
 	for e.Parent != nil {
 		e = e.Parent
 	}
-	return e.Node.(*Module).Modules
+	if m := RootNode(e.Node); m != nil {
+		return m.Modules
+	}
+	return nil
 }
 
 // IsDir returns true if e is a directory.
@@ -1347,7 +1350,7 @@ func (e *Entry) Find(name string) *Entry {
 					mod.NName(), e.Path()))
 				return nil
 			}
-			if m != e.Node.(*Module) {
+			if root, ok := e.Node.(*Module); !ok || m != root {
 				e = ToEntry(m)
 			}
 		}
